@@ -1,3 +1,48 @@
-From TM Require Import Base Frame.
-Theorem C20_placeholder : fc_value (fc_new 1) = 1.
-Proof. reflexivity. Qed.
+(* C20 -- typed reads return exactly the requested number of items or an error. *)
+From TM Require Import Base Frame Pdu Framed Client ClientProofs TypedProofs.
+
+Theorem C20_exact_count_bits : forall req r bs,
+  typed_post req r = TRBits bs ->
+  exists a q rb, (req = ReqReadCoils a q /\ r = RspReadCoils rb \/ req = ReqReadDiscreteInputs a q /\ r = RspReadDiscreteInputs rb)
+                 /\ len bs = q /\ bs = firstn (N.to_nat q) rb.
+Proof. exact typed_read_exact_bits. Qed.
+
+Theorem C20_exact_count_words : forall req r ws,
+  typed_post req r = TRWords ws ->
+  exists q, ((exists a, req = ReqReadInputRegisters a q /\ r = RspReadInputRegisters ws
+                        \/ req = ReqReadHoldingRegisters a q /\ r = RspReadHoldingRegisters ws)
+             \/ (exists ra wa wws, req = ReqReadWriteMultipleRegisters ra q wa wws /\ r = RspReadWriteMultipleRegisters ws))
+            /\ len ws = q.
+Proof. exact typed_read_exact_words. Qed.
+
+Theorem C20_write_own_kind : forall req r,
+  typed_post req r = TRUnit ->
+  match req, r with
+  | ReqWriteSingleCoil a b, RspWriteSingleCoil a' b' => a = a' /\ b = b'
+  | ReqWriteMultipleCoils a bs, RspWriteMultipleCoils a' q => a = a' /\ len bs = q
+  | ReqWriteSingleRegister a w, RspWriteSingleRegister a' w' => a = a' /\ w = w'
+  | ReqWriteMultipleRegisters a ws, RspWriteMultipleRegisters a' q => a = a' /\ len ws = q
+  | ReqMaskWriteRegister a x y, RspMaskWriteRegister a' x' y' => a = a' /\ x = x' /\ y = y'
+  | _, _ => False
+  end.
+Proof. exact typed_write_own_kind. Qed.
+
+(* for every reply a server can send (anything the decoder accepts) that the call lets through
+   (numerically the request's function code), the typed method returns a result: no panic *)
+Theorem C20_no_panic : forall req r bs,
+  is_typed_req req = true -> dec_rsp bs = Val r -> fc_value (rsp_fc r) = fc_value (req_fc req) ->
+  typed_post req r <> TRErr CRPanic.
+Proof. exact typed_post_no_panic. Qed.
+
+Theorem C20_typed_is_call_then_post : forall p m st req bg,
+  fst (typed p m st req bg) =
+  match fst (call p m st req bg) with
+  | CROk r => typed_post req r
+  | CRExc e => TRExc e
+  | c => TRErr c
+  end.
+Proof. exact typed_result_shape. Qed.
+
+Example C20_ex : typed_post (ReqReadHoldingRegisters 0 3) (RspReadHoldingRegisters [7]) = TRErr (CRTransport KInvalidData)
+  /\ typed_post (ReqReadCoils 0 3) (RspReadCoils [true; false; true; false; false; false; false; false]) = TRBits [true; false; true].
+Proof. split; reflexivity. Qed.
